@@ -132,19 +132,34 @@ class Obj:
             if not params:
                 raise TypeError('%s() takes no positional argument (self)' % name)
             env[params[0]] = (self.target if isinstance(self, _Bound) else self)
+            if any(isinstance(d, ast.Name) and d.id == 'classmethod' for d in fn.decorator_list):
+                # a class method reached through an instance: its first parameter is the class, not the instance
+                cn = (getattr(self, 'owners', None) or {}).get(name) or getattr(self, 'clsname', None)
+                try:
+                    env[params[0]] = self.funcs['__name__'](cn) if cn and isinstance(self.funcs, dict) and '__name__' in self.funcs else env[params[0]]
+                except Unsupported:
+                    pass
         if getattr(self, 'clsname', None):
             env['__cls__'] = (getattr(self, 'owners', None) or {}).get(name, self.clsname)
         _bind_params(fn, params if static else params[1:], args, kwargs, env, self.funcs, name)
         body = fn.body
         if body and isinstance(body[0], ast.Expr) and isinstance(body[0].value, ast.Constant) and isinstance(body[0].value.value, str):
             body = body[1:]
+        if _is_generator(fn):
+            return _start_generator(body, env, self.funcs)
         kind, val = run_block(body, env, self.funcs)
-        return _result(fn, env, kind, val)
+        return val if kind == 'return' else None
 
 
+import types as _types
 import re as _re_mod
 import string as _string_mod
 _SAFE_MODULES = {'re': _re_mod, 'string': _string_mod}
+_PLUMBING = ('itertools', 'functools', 'operator')
+# builtins that may be taken as values (handed to map / partial / a table) and then mean what the interpreter makes them mean
+_VALUE_BUILTINS = frozenset(('getattr', 'setattr', 'hasattr', 'delattr', 'isinstance', 'len', 'iter', 'next', 'str', 'repr', 'hash', 'id', 'list', 'tuple', 'set', 'frozenset',
+                             'dict', 'sorted', 'reversed', 'enumerate', 'zip', 'map', 'filter', 'min', 'max', 'sum', 'any', 'all', 'abs', 'int', 'float', 'bool', 'round',
+                             'divmod', 'callable', 'type', 'range', 'print', 'ord', 'chr', 'pow'))
 
 
 _BUILTIN_CALLS = frozenset(('vars', 'setattr', 'delattr', 'id', 'hash', 'repr', 'list', 'tuple', 'set', 'frozenset', 'callable', 'hasattr', 'ord', 'chr', 'bin', 'hex', 'oct', 'pow', 'print', 'iter', 'next'))
@@ -164,6 +179,7 @@ class GenList(list):
 
 _GEN_CACHE = {}
 _TYPE_CACHE = {}
+_MISSING_ARG = object()
 
 
 def _is_generator(fn):
@@ -270,6 +286,20 @@ _DUNDER = {ast.Lt: '__lt__', ast.LtE: '__le__', ast.Gt: '__gt__', ast.GtE: '__ge
            ast.Eq: '__eq__', ast.NotEq: '__ne__'}
 
 
+def _demangled(o, name):
+    """the private method `__x` of the record's class (or of a base) that the mangled name `_Class__x` denotes, if any"""
+    if not isinstance(name, str) or not name.startswith('_') or name.endswith('__'):
+        return None
+    owners = getattr(o, 'owners', None) or {}
+    for cls in set(owners.values()) | ({o.clsname} if getattr(o, 'clsname', None) else set()):
+        prefix = '_' + cls.lstrip('_')
+        if name.startswith(prefix + '__'):
+            cand = name[len(prefix):]
+            if cand in o.methods and owners.get(cand, o.clsname) == cls:
+                return cand
+    return None
+
+
 def _mangled(attr, env):
     c = env.get('__cls__')
     if c and attr.startswith('__') and not attr.endswith('__'):
@@ -292,10 +322,7 @@ def _args(n, env, funcs):
     out = []
     for a_ in n.args:
         if isinstance(a_, ast.Starred):
-            sv = ev(a_.value, env, funcs)
-            if not isinstance(sv, (list, tuple)):
-                raise Unsupported('starred argument %s' % ast.unparse(a_))
-            out.extend(sv)
+            out.extend(_iter(ev(a_.value, env, funcs), a_.value))
         else:
             out.append(ev(a_, env, funcs))
     return out
@@ -358,6 +385,424 @@ def _kw(n, env, funcs):
     return out
 
 
+# ----------------------------------------------------------------------------------------------------------------------------------
+# iteration protocol, lazy generators and the pure plumbing modules (itertools / functools / operator) on the interpreter's values
+# ----------------------------------------------------------------------------------------------------------------------------------
+_SYN_CACHE = {}
+
+
+def _syn(src, nargs, funcs=None):
+    """a Python-callable that evaluates the expression text `src` over its arguments _a0, _a1 ... with THIS interpreter (so that
+    records are compared, added, indexed ... by the repository's own dunder methods)"""
+    if src not in _SYN_CACHE:
+        _SYN_CACHE[src] = ast.parse(src, mode='eval').body
+    tree = _SYN_CACHE[src]
+    names = ['_a%d' % i for i in range(nargs)]
+
+    def call(*args):
+        if len(args) != nargs:
+            raise TypeError('expected %d arguments, got %d' % (nargs, len(args)))
+        return ev(tree, dict(zip(names, args)), funcs)
+    call.__name__ = src
+    return call
+
+
+def _truth(v):
+    return bool(v)
+
+
+def _iter(v, node=None):
+    """the iterator Python's iter() gives for an interpreter value"""
+    if isinstance(v, Obj):
+        if '__iter__' in v.methods:
+            return _iter(v.call('__iter__'), node)
+        if '__getitem__' in v.methods:
+            def legacy():
+                i_ = 0
+                while True:
+                    try:
+                        item = v.call('__getitem__', i_)
+                    except IndexError:
+                        return
+                    except Raised as ex:
+                        if ex.name == 'IndexError':
+                            return
+                        raise
+                    yield item
+                    i_ += 1
+                    if i_ > 100000:
+                        raise Raised('NonTermination', 'iteration by index ran past 100000 items')
+            return legacy()
+        raise TypeError('%r object is not iterable' % (v.clsname or 'record'))
+    if isinstance(v, _ObjNext):
+        return v
+    if isinstance(v, PyStub):
+        if hasattr(v, '__iter__'):
+            return iter(v)
+        if hasattr(v, '__getitem__') and hasattr(v, '__len__'):
+            return iter([v[i_] for i_ in range(len(v))])
+        raise Unsupported('iteration over an abstract object%s' % ((' (%s)' % _unparse(node)) if node is not None else ''))
+    if v is None or isinstance(v, (bool, int, float, complex)):
+        raise TypeError('%r object is not iterable' % type(v).__name__)
+    if isinstance(v, (list, tuple, str, range, set, frozenset, dict, bytes)) or hasattr(v, '__iter__'):
+        return iter(v)
+    raise Unsupported('iteration over %r' % type(v).__name__)
+
+
+class _ObjNext:
+    """a record whose class defines __next__ (its own iterator)"""
+
+    def __init__(self, obj):
+        self.obj = obj
+
+    def __iter__(self):
+        return self
+
+    def __next__(self):
+        try:
+            return self.obj.call('__next__')
+        except Raised as ex:
+            if ex.name == 'StopIteration':
+                raise StopIteration
+            raise
+
+
+def _lt(a, b):
+    if isinstance(a, Obj) or isinstance(b, Obj):
+        return _obj_compare(ast.Lt, a, b)
+    return a < b
+
+
+def _min_max(fname, items, key=None, default=_MISSING_ARG):
+    best = bk = None
+    first = True
+    for x in items:
+        k = key(x) if key is not None else x
+        if first:
+            best, bk, first = x, k, False
+        elif (_lt(k, bk) if fname == 'min' else _lt(bk, k)):
+            best, bk = x, k
+    if first:
+        if default is not _MISSING_ARG:
+            return default
+        raise ValueError('%s() iterable argument is empty' % fname)
+    return best
+
+
+def _add(a, b):
+    if isinstance(a, Obj) or isinstance(b, Obj):
+        return _obj_binop(ast.Add, a, b)
+    return a + b
+
+
+class _GlobalsView(PyStub):
+    """globals() of the interpreted module, read-only: names resolve as free names do"""
+
+    def __init__(self, funcs):
+        self._funcs = funcs
+
+    def __getitem__(self, k):
+        if not isinstance(k, str):
+            raise KeyError(k)
+        g = self._funcs.get('__globals__', {})
+        if k in g:
+            return g[k]
+        try:
+            return self._funcs['__name__'](k)
+        except Unsupported:
+            raise Unsupported('globals()[%r]' % k)
+
+    def get(self, k, default=None):
+        try:
+            return self[k]
+        except (KeyError, Unsupported):
+            raise Unsupported('globals().get(%r)' % k)
+
+
+class _PureModule(PyStub):
+    """stand-in for a standard-library module of pure plumbing: only the listed names, adapted to the interpreter's values"""
+    _names = {}
+
+    def __getattr__(self, k):
+        names = type(self)._names
+        if k in names:
+            return names[k]
+        if k.startswith('_') or k in ('repo_methods', 'repo_funcs', 'isa'):
+            raise AttributeError(k)
+        raise Unsupported('%s.%s is not modelled' % (type(self).__name__.strip('_').lower(), k))
+
+
+def _build_pure_modules():
+    import itertools as it
+    import functools as ft
+    import operator as op
+
+    def its(f, n_iter=1):
+        """the first n_iter positional arguments are iterables of the interpreter"""
+        def call(*a, **k):
+            a = list(a)
+            for i_ in range(min(n_iter, len(a))):
+                a[i_] = _iter(a[i_])
+            return f(*a, **k)
+        call.__name__ = f.__name__
+        return call
+
+    def all_its(f):
+        def call(*a, **k):
+            return f(*[_iter(x) for x in a], **k)
+        call.__name__ = f.__name__
+        return call
+
+    def accumulate(iterable, func=None, *, initial=None):
+        return it.accumulate(_iter(iterable), func if func is not None else _add, initial=initial)
+
+    def reduce(function, iterable, *rest):
+        return ft.reduce(function, _iter(iterable), *rest)
+
+    def starmap(function, iterable):
+        return (function(*list(_iter(t_))) for t_ in _iter(iterable))
+
+    def chain_from_iterable(iterables):
+        return (x for sub in _iter(iterables) for x in _iter(sub))
+    chain = all_its(it.chain)
+    chain.from_iterable = chain_from_iterable
+
+    class _Itertools(_PureModule):
+        _names = {'chain': chain, 'islice': its(it.islice), 'repeat': it.repeat, 'count': it.count, 'cycle': its(it.cycle),
+                  'accumulate': accumulate, 'product': all_its(it.product), 'permutations': its(it.permutations), 'combinations': its(it.combinations),
+                  'combinations_with_replacement': its(it.combinations_with_replacement),
+                  'zip_longest': all_its(it.zip_longest), 'takewhile': lambda pred, x: it.takewhile(pred, _iter(x)),
+                  'dropwhile': lambda pred, x: it.dropwhile(pred, _iter(x)), 'filterfalse': lambda pred, x: it.filterfalse(pred, _iter(x)),
+                  'starmap': starmap, 'pairwise': its(it.pairwise), 'compress': all_its(it.compress), 'tee': its(it.tee)}
+
+    class _Functools(_PureModule):
+        _names = {'partial': ft.partial, 'reduce': reduce, 'cmp_to_key': ft.cmp_to_key}
+
+    def itemgetter(*items):
+        if not items:
+            raise TypeError('itemgetter expected 1 argument, got 0')
+        get = _syn('_a0[_a1]', 2)
+        if len(items) == 1:
+            return lambda obj: get(obj, items[0])
+        return lambda obj: tuple(get(obj, i_) for i_ in items)
+
+    def attrgetter(*names):
+        if not names or not all(isinstance(nm, str) for nm in names):
+            raise TypeError('attribute name must be a string')
+        get = _syn('getattr(_a0, _a1)', 2)
+
+        def one(obj, dotted):
+            for part in dotted.split('.'):
+                obj = get(obj, part)
+            return obj
+        if len(names) == 1:
+            return lambda obj: one(obj, names[0])
+        return lambda obj: tuple(one(obj, nm) for nm in names)
+
+    def methodcaller(name, *a, **k):
+        get = _syn('getattr(_a0, _a1)', 2)
+        return lambda obj: get(obj, name)(*a, **k)
+    binops = {'lt': '<', 'le': '<=', 'gt': '>', 'ge': '>=', 'eq': '==', 'ne': '!=', 'add': '+', 'sub': '-', 'mul': '*', 'truediv': '/', 'floordiv': '//',
+              'mod': '%', 'pow': '**', 'is_': ' is ', 'is_not': ' is not ', 'and_': '&', 'or_': '|', 'xor': '^', 'lshift': '<<', 'rshift': '>>', 'concat': '+'}
+    names = {nm: _syn('_a0 %s _a1' % sym, 2) for nm, sym in binops.items()}
+    names.update({'neg': _syn('-_a0', 1), 'pos': _syn('+_a0', 1), 'not_': _syn('not _a0', 1), 'truth': _syn('bool(_a0)', 1), 'abs': _syn('abs(_a0)', 1),
+                  'getitem': _syn('_a0[_a1]', 2), 'contains': _syn('_a1 in _a0', 2), 'index': _syn('_a0.__index__()', 1),
+                  'itemgetter': itemgetter, 'attrgetter': attrgetter, 'methodcaller': methodcaller})
+
+    def setitem(a, b, c):
+        _bind(_SYN_STORE, c, {'_a0': a, '_a1': b})
+    names['setitem'] = setitem
+    for nm in list(names):
+        if nm.rstrip('_') == nm and nm in ('lt', 'le', 'gt', 'ge', 'eq', 'ne', 'add', 'sub', 'mul', 'truediv', 'floordiv', 'mod', 'pow', 'neg', 'pos', 'getitem', 'setitem', 'contains', 'abs', 'index'):
+            names['__%s__' % nm] = names[nm]
+
+    class _Operator(_PureModule):
+        _names = names
+    return {'itertools': _Itertools(), 'functools': _Functools(), 'operator': _Operator()}
+
+
+_SYN_STORE = ast.parse('_a0[_a1]', mode='eval').body
+_SYN_STORE.ctx = ast.Store()
+_PURE_MODULES = {}
+
+
+def pure_module(name):
+    """the interpreter's stand-in for the standard-library module `name` (None when the module is not one of the pure plumbing ones)"""
+    if not _PURE_MODULES:
+        _PURE_MODULES.update(_build_pure_modules())
+    return _PURE_MODULES.get(name)
+
+
+def builtin_value(name, funcs=None):
+    """a builtin function taken as a VALUE (handed to map, partial, a dispatch table): a callable that applies the interpreter's own
+    meaning of that builtin"""
+    def call(*args, **kwargs):
+        env = {'_a%d' % i_: a_ for i_, a_ in enumerate(args)}
+        env.update({'_k_%s' % k_: v_ for k_, v_ in kwargs.items()})
+        node = ast.Call(func=ast.Name(id=name, ctx=ast.Load()), args=[ast.Name(id='_a%d' % i_, ctx=ast.Load()) for i_ in range(len(args))],
+                        keywords=[ast.keyword(arg=k_, value=ast.Name(id='_k_%s' % k_, ctx=ast.Load())) for k_ in kwargs])
+        return ev(node, env, funcs)
+    call.__name__ = name
+    return call
+
+
+def _lazy_genexp(n, env, funcs):
+    """a generator expression: its first iterable is evaluated at once (in the enclosing scope), everything else when items are asked for"""
+    first = _iter(ev(n.generators[0].iter, env, funcs), n.generators[0].iter)
+    scope = dict(env)
+    scope['__comp_outer__'] = env
+
+    def gen(k):
+        if k == len(n.generators):
+            yield ev(n.elt, scope, funcs)
+            return
+        g = n.generators[k]
+        src = first if k == 0 else _iter(ev(g.iter, scope, funcs), g.iter)
+        for item in src:
+            _bind(g.target, item, scope, funcs)
+            if all(ev(c_, scope, funcs) for c_ in g.ifs):
+                yield from gen(k + 1)
+    return gen(0)
+
+
+def _has_yield(s):
+    try:
+        return s._tl_yield
+    except AttributeError:
+        found = False
+        stack = [s]
+        while stack and not found:
+            n_ = stack.pop()
+            if isinstance(n_, (ast.Yield, ast.YieldFrom)):
+                found = True
+            elif n_ is s or not isinstance(n_, (ast.FunctionDef, ast.Lambda, ast.ClassDef, ast.AsyncFunctionDef)):
+                stack.extend(ast.iter_child_nodes(n_))
+        s._tl_yield = found
+        return found
+
+
+def _start_generator(body, env, funcs, after=None):
+    """the generator object a call of a generator function returns: nothing of the body runs before the first item is asked for"""
+    def g():
+        try:
+            kind, val = yield from _gen_block(body, env, funcs)
+        finally:
+            if after is not None:
+                after()
+        return val if kind == 'return' else None
+    return g()
+
+
+def _gen_block(stmts, env, funcs, limit=10000):
+    """run_block for the body of a generator function: a Python generator that yields what the body yields and returns
+    ('return', value) | ('fall', None) | ('break', None) | ('continue', None)"""
+    for s in stmts:
+        if not _has_yield(s):
+            r = run_block([s], env, funcs, limit)
+            if r[0] != 'fall':
+                return r
+            continue
+        if isinstance(s, ast.Expr) and isinstance(s.value, ast.Yield):
+            yield (ev(s.value.value, env, funcs) if s.value.value is not None else None)
+        elif isinstance(s, ast.Expr) and isinstance(s.value, ast.YieldFrom):
+            yield from _iter(ev(s.value.value, env, funcs), s.value.value)
+        elif isinstance(s, ast.Assign) and isinstance(s.value, ast.Yield) and not any(_has_yield(t) for t in s.targets):
+            sent = yield (ev(s.value.value, env, funcs) if s.value.value is not None else None)
+            for t in s.targets:
+                _bind(t, sent, env, funcs)
+        elif isinstance(s, ast.Assign) and isinstance(s.value, ast.YieldFrom) and not any(_has_yield(t) for t in s.targets):
+            res = yield from _iter(ev(s.value.value, env, funcs), s.value.value)
+            for t in s.targets:
+                _bind(t, res, env, funcs)
+        elif isinstance(s, ast.Return) and isinstance(s.value, ast.YieldFrom):
+            res = yield from _iter(ev(s.value.value, env, funcs), s.value.value)
+            return ('return', res)
+        elif isinstance(s, ast.If) and not _has_yield(s.test):
+            r = yield from _gen_block(s.body if ev(s.test, env, funcs) else s.orelse, env, funcs, limit)
+            if r[0] != 'fall':
+                return r
+        elif isinstance(s, ast.For) and not _has_yield(s.iter) and not _has_yield(s.target):
+            n_it = 0
+            broke = False
+            for item in _iter(ev(s.iter, env, funcs), s.iter):
+                n_it += 1
+                if n_it > limit * 10:
+                    raise Raised('NonTermination', 'a loop ran for more than %d iterations on this small input' % (limit * 10))
+                _bind(s.target, item, env, funcs)
+                r = yield from _gen_block(s.body, env, funcs, limit)
+                if r[0] == 'break':
+                    broke = True
+                    break
+                if r[0] == 'return':
+                    return r
+            if s.orelse and not broke:
+                r2 = yield from _gen_block(s.orelse, env, funcs, limit)
+                if r2[0] != 'fall':
+                    return r2
+        elif isinstance(s, ast.While) and not _has_yield(s.test):
+            n_it = 0
+            broke = False
+            while ev(s.test, env, funcs):
+                n_it += 1
+                if n_it > limit * 10:
+                    raise Raised('NonTermination', 'a loop ran for more than %d iterations on this small input' % (limit * 10))
+                r = yield from _gen_block(s.body, env, funcs, limit)
+                if r[0] == 'break':
+                    broke = True
+                    break
+                if r[0] == 'return':
+                    return r
+            if s.orelse and not broke:
+                r2 = yield from _gen_block(s.orelse, env, funcs, limit)
+                if r2[0] != 'fall':
+                    return r2
+        elif isinstance(s, ast.Try):
+            r = ('fall', None)
+            try:
+                try:
+                    r = yield from _gen_block(s.body, env, funcs, limit)
+                except (Raised, IndexError, KeyError, ZeroDivisionError, TypeError, AttributeError, ValueError) as ex:
+                    h = _matching_handler(s, ex)
+                    if h is None:
+                        raise
+                    if h.name:
+                        env[h.name] = ex
+                    r = yield from _gen_block(h.body, env, funcs, limit)
+                else:
+                    if s.orelse:
+                        r2 = yield from _gen_block(s.orelse, env, funcs, limit)
+                        if r2[0] != 'fall':
+                            r = r2
+            finally:
+                if s.finalbody:
+                    if any(_has_yield(x) for x in s.finalbody):
+                        raise Unsupported('yield in a finally block')
+                    r3 = run_block(s.finalbody, env, funcs, limit)
+                    if r3[0] != 'fall':
+                        r = r3
+            if r[0] != 'fall':
+                return r
+        elif isinstance(s, ast.With) and not any(_has_yield(it_.context_expr) for it_ in s.items) and \
+                all(isinstance(it_.context_expr, ast.Call) and ast.unparse(it_.context_expr.func).split('.')[-1] in ('catch_warnings', 'suppress', 'nullcontext', 'errstate') for it_ in s.items):
+            r = yield from _gen_block(s.body, env, funcs, limit)
+            if r[0] != 'fall':
+                return r
+        else:
+            raise Unsupported('yield inside %s' % _unparse(s)[:80])
+    return ('fall', None)
+
+
+def _matching_handler(s, ex):
+    exname = ex.name if isinstance(ex, Raised) else type(ex).__name__
+    for h in s.handlers:
+        names = [] if h.type is None else [ast.unparse(x).split('.')[-1] for x in (h.type.elts if isinstance(h.type, ast.Tuple) else [h.type])]
+        if h.type is None or exname in names or 'Exception' in names or 'BaseException' in names or \
+                (exname in ('IndexError', 'KeyError') and 'LookupError' in names) or (exname == 'ZeroDivisionError' and 'ArithmeticError' in names):
+            return h
+    return None
+
+
+
 def ev(n, env, funcs=None):
     """evaluate an AST expression over integers standing for ranks"""
     if isinstance(n, ast.Name):
@@ -365,8 +810,20 @@ def ev(n, env, funcs=None):
             return env[n.id]
         if funcs and '__globals__' in funcs and n.id in funcs['__globals__']:
             return funcs['__globals__'][n.id]
+        if n.id in _PLUMBING:
+            try:
+                return funcs['__name__'](n.id) if funcs and '__name__' in funcs else pure_module(n.id)
+            except Unsupported:
+                return pure_module(n.id)
         if funcs and '__name__' in funcs:
-            return funcs['__name__'](n.id)
+            try:
+                return funcs['__name__'](n.id)
+            except Unsupported:
+                if n.id in _VALUE_BUILTINS:
+                    return builtin_value(n.id, funcs)
+                raise
+        if n.id in _VALUE_BUILTINS:
+            return builtin_value(n.id, funcs)
         raise Unsupported('free name %s' % n.id)
     if isinstance(n, ast.Attribute):
         txt = _unparse(n)
@@ -398,6 +855,8 @@ def ev(n, env, funcs=None):
                 return cc[n.attr]
             if n.attr in v.methods:
                 return _BoundMethod(v, n.attr)
+            if _demangled(v, n.attr) is not None:
+                return _BoundMethod(v, _demangled(v, n.attr))
             if getattr(v, 'constructed', False) and '__getattr__' not in v.methods and an not in getattr(v, 'classnames', ()) \
                     and n.attr not in getattr(v, 'classnames', ()):
                 raise AttributeError('%r object has no attribute %r' % (v.clsname, n.attr))
@@ -464,6 +923,9 @@ def ev(n, env, funcs=None):
             # the standard copy module (not numpy.copy, which the harness may provide under the same bare name)
             from . import absint as _absint
             return (_absint.shallow_copy if fname == 'copy' else _absint.deep_copy)(ev(n.args[0], env, funcs))
+        if isinstance(f, ast.Attribute) and isinstance(f.value, ast.Name) and f.value.id in _PLUMBING and f.value.id not in env \
+                and not (funcs and f.value.id in funcs.get('__globals__', ())):
+            return getattr(pure_module(f.value.id), fname)(*_args(n, env, funcs), **_kw(n, env, funcs))
         if isinstance(f, ast.Attribute) and isinstance(f.value, ast.Name) and f.value.id in _SAFE_MODULES and f.value.id not in env \
                 and hasattr(_SAFE_MODULES[f.value.id], fname) and not fname.startswith('_'):
             # a pure standard-library function on text / numbers (re.match, string constants ...)
@@ -476,6 +938,13 @@ def ev(n, env, funcs=None):
                 rv = ev(f.value, env, funcs)
             except Unsupported:
                 rv = None
+            if isinstance(rv, _types.GeneratorType) and fname in ('send', 'close', 'throw'):
+                try:
+                    return getattr(rv, fname)(*_args(n, env, funcs))
+                except StopIteration:
+                    raise Raised('StopIteration', '')
+            if isinstance(rv, _types.FunctionType) and not fname.startswith('_') and callable(rv.__dict__.get(fname)):
+                return rv.__dict__[fname](*_args(n, env, funcs), **_kw(n, env, funcs))      # itertools.chain.from_iterable
             if type(rv).__module__ == 're' and not fname.startswith('_') and hasattr(rv, fname):      # re.Match / re.Pattern objects
                 return getattr(rv, fname)(*_args(n, env, funcs), **_kw(n, env, funcs))
             if type(rv) in (list, set, dict, str, tuple, bytes, frozenset) and not fname.startswith('_') and hasattr(rv, fname):
@@ -551,10 +1020,7 @@ def ev(n, env, funcs=None):
         args = []
         for a_ in n.args:
             if isinstance(a_, ast.Starred):
-                sv = ev(a_.value, env, funcs)
-                if not isinstance(sv, (list, tuple)):
-                    raise Unsupported('starred argument %s' % _unparse(a_))
-                args.extend(sv)
+                args.extend(_iter(ev(a_.value, env, funcs), a_.value))
             else:
                 args.append(ev(a_, env, funcs))
         if fname == 'float' and len(args) == 1 and isinstance(args[0], str):
@@ -575,6 +1041,7 @@ def ev(n, env, funcs=None):
                 return set()
             if isinstance(args[0], (list, tuple, set, range)):
                 return set(args[0])
+            return set(_iter(args[0], n))
         if isinstance(f, ast.Name) and fname == 'dict' and not args and not n.keywords:
             return {}
         if isinstance(f, ast.Name) and fname == 'dict' and len(args) <= 1:
@@ -583,11 +1050,12 @@ def ev(n, env, funcs=None):
                 src_ = args[0]
                 if isinstance(src_, dict):
                     d_.update(src_)
-                elif isinstance(src_, (list, tuple)) and all(isinstance(p_, (list, tuple)) and len(p_) == 2 for p_ in src_):
-                    for k_, v_ in src_:
-                        d_[k_] = v_
                 else:
-                    raise Unsupported('dict(%s)' % _unparse(n.args[0]))
+                    for p_ in _iter(src_, n):
+                        p_ = list(_iter(p_, n))
+                        if len(p_) != 2:
+                            raise ValueError('dictionary update sequence element has length %d; 2 is required' % len(p_))
+                        d_[p_[0]] = p_[1]
             for k in n.keywords:
                 if k.arg:
                     d_[k.arg] = ev(k.value, env, funcs)
@@ -603,66 +1071,56 @@ def ev(n, env, funcs=None):
                 return [] if fname == 'list' else ()
             if isinstance(args[0], (list, tuple, range)):
                 return list(args[0]) if fname == 'list' else tuple(args[0])
-        if isinstance(f, ast.Name) and fname in ('map', 'filter') and len(args) >= 2 and (callable(args[0]) or args[0] is None):
-            its = []
-            for it_ in args[1:]:
-                if isinstance(it_, dict) or type(it_).__name__ in ('dict_keys', 'dict_values', 'dict_items'):
-                    it_ = list(it_)
-                if not isinstance(it_, (list, tuple, range, set, str)):
-                    raise Unsupported('%s over %r' % (fname, type(it_).__name__))
-                its.append(list(it_))
+        _shadowed = fname in env or bool(funcs and fname in funcs and fname not in funcs.get('__defaults__', ()) and fname not in funcs.get('__np_names__', ()))
+        if isinstance(f, ast.Name) and not _shadowed and fname in ('map', 'filter') and len(args) >= 2 and not n.keywords:
             if fname == 'map':
-                return [args[0](*t_) for t_ in zip(*its)]
-            return [x for x in its[0] if (args[0](x) if args[0] is not None else x)]
-        if isinstance(f, ast.Name) and fname == 'zip' and not (set(_kw(n, env, funcs)) - {'strict'}):
-            its_ = [_iterable(a_, n) for a_ in args]
-            if _kw(n, env, funcs).get('strict') and len({len(list(i_)) for i_ in its_}) > 1:
-                raise ValueError('zip() arguments have different lengths')
-            return [tuple(t) for t in zip(*its_)]
-        if isinstance(f, ast.Name) and fname == 'reversed' and len(args) == 1 and isinstance(args[0], (list, tuple, range, str)) and not n.keywords:
-            return list(reversed(args[0]))
-        if isinstance(f, ast.Name) and fname == 'sorted' and len(args) == 1 and not n.keywords and not isinstance(args[0], (Obj,)):
-            return sorted(_iterable(args[0], n))
-        if isinstance(f, ast.Name) and fname == 'sorted' and len(args) == 1 and n.keywords:
-            it_ = args[0]
-            if isinstance(it_, dict) or type(it_).__name__ in ('dict_keys', 'dict_values', 'dict_items') or isinstance(it_, (set, tuple, range, str)):
-                it_ = list(it_)
-            if isinstance(it_, list):
-                out_ = list(it_)
-                _sort_in_place(out_, _kw(n, env, funcs))
+                if not callable(args[0]):
+                    raise TypeError('%r object is not callable' % type(args[0]).__name__)
+                return map(args[0], *[_iter(a_, n) for a_ in args[1:]])
+            if len(args) == 2 and (callable(args[0]) or args[0] is None):
+                return filter(args[0], _iter(args[1], n))
+        if isinstance(f, ast.Name) and not _shadowed and fname == 'zip' and not (set(_kw(n, env, funcs)) - {'strict'}):
+            return zip(*[_iter(a_, n) for a_ in args], **_kw(n, env, funcs))
+        if isinstance(f, ast.Name) and not _shadowed and fname == 'reversed' and len(args) == 1 and not n.keywords:
+            a0 = args[0]
+            if isinstance(a0, (list, tuple, range, str, dict)):
+                return reversed(a0)
+            if isinstance(a0, Obj):
+                if '__reversed__' in a0.methods:
+                    return _iter(a0.call('__reversed__'), n)
+                if '__len__' in a0.methods and '__getitem__' in a0.methods:
+                    return (a0.call('__getitem__', i_) for i_ in range(a0.call('__len__') - 1, -1, -1))
+            if isinstance(a0, PyStub) and hasattr(a0, '__len__') and hasattr(a0, '__getitem__'):
+                return iter([a0[i_] for i_ in range(len(a0) - 1, -1, -1)])
+            raise TypeError('%r object is not reversible' % type(a0).__name__)
+        if isinstance(f, ast.Name) and not _shadowed and fname == 'sorted' and len(args) == 1:
+            kw_ = _kw(n, env, funcs)
+            if set(kw_) <= {'key', 'reverse'}:
+                out_ = list(_iter(args[0], n))
+                _sort_in_place(out_, kw_)
                 return out_
-        if isinstance(f, ast.Name) and fname in ('min', 'max') and n.keywords and args:
+        if isinstance(f, ast.Name) and not _shadowed and fname in ('min', 'max') and args:
             kw_ = _kw(n, env, funcs)
             if set(kw_) <= {'key', 'default'} and (kw_.get('key') is None or callable(kw_.get('key'))):
-                its_ = args
                 if len(args) == 1:
-                    a0 = args[0]
-                    if isinstance(a0, dict) or type(a0).__name__ in ('dict_keys', 'dict_values', 'dict_items') or isinstance(a0, (set, frozenset, range, str)):
-                        a0 = list(a0)
-                    if not isinstance(a0, (list, tuple)):
-                        raise Unsupported('%s over %r' % (fname, type(a0).__name__))
-                    its_ = list(a0)
-                    if not its_:
-                        if 'default' in kw_:
-                            return kw_['default']
-                        raise ValueError('%s() iterable argument is empty' % fname)
-                pick = min if fname == 'min' else max
-                return pick(its_, key=kw_['key']) if kw_.get('key') is not None else pick(its_)
-        if isinstance(f, ast.Name) and fname in ('all', 'any', 'sum') and len(args) == 1 and isinstance(args[0], (list, tuple)) and not n.keywords:
-            return {'all': all, 'any': any, 'sum': sum}[fname](args[0])
-        if isinstance(f, ast.Name) and fname == 'sum' and (len(args) == 2 or n.keywords) and isinstance(args[0], (list, tuple)):
+                    return _min_max(fname, _iter(args[0], n), kw_.get('key'), kw_['default'] if 'default' in kw_ else _MISSING_ARG)
+                if 'default' in kw_:
+                    raise TypeError('Cannot specify a default for %s() with multiple positional arguments' % fname)
+                return _min_max(fname, args, kw_.get('key'))
+        if isinstance(f, ast.Name) and not _shadowed and fname in ('all', 'any') and len(args) == 1 and not n.keywords:
+            return {'all': all, 'any': any}[fname](_iter(args[0], n))
+        if isinstance(f, ast.Name) and not _shadowed and fname == 'sum' and 1 <= len(args) <= 2:
             kw_ = _kw(n, env, funcs)
-            if set(kw_) <= {'start'}:
-                return sum(args[0], args[1] if len(args) == 2 else kw_.get('start', 0))
-        if fname in ('min', 'max') and args and not n.keywords:
-            if len(args) == 1:
-                a0 = args[0]
-                if isinstance(a0, (Obj, PyStub)) and not hasattr(a0, '__iter__'):
-                    raise Unsupported('%s of an abstract object' % fname)
-                if isinstance(a0, (int, float, bool)) or a0 is None:
-                    raise TypeError('%r object is not iterable' % type(a0).__name__)
-                args = list(a0)
-            return (min if fname == 'min' else max)(args)
+            if set(kw_) <= {'start'} and not (kw_ and len(args) == 2):
+                start_ = args[1] if len(args) == 2 else kw_.get('start', 0)
+                if isinstance(start_, str):
+                    raise TypeError("sum() can't sum strings [use ''.join(seq) instead]")
+                items_ = list(_iter(args[0], n))
+                if not any(isinstance(x_, Obj) for x_ in items_) and not isinstance(start_, Obj):
+                    return sum(items_, start_)
+                for x_ in items_:
+                    start_ = _add(start_, x_)
+                return start_
         if fname == 'abs' and len(args) == 1:
             return abs(args[0])
         if fname == 'fabs' and len(args) == 1:
@@ -673,15 +1131,9 @@ def ev(n, env, funcs=None):
             return len(args[0])
         if fname == 'range' and isinstance(f, ast.Name) and all(isinstance(a, int) for a in args):
             return list(range(*args))
-        if fname == 'enumerate' and isinstance(f, ast.Name) and 1 <= len(args) <= 2:
-            it_ = args[0]
-            if isinstance(it_, dict) or type(it_).__name__ in ('dict_keys', 'dict_values', 'dict_items') or isinstance(it_, (set, frozenset, range, str)):
-                it_ = list(it_)
-            if isinstance(it_, PyStub) and hasattr(it_, '__iter__'):
-                it_ = list(it_)
-            if isinstance(it_, (list, tuple)):
-                start_ = args[1] if len(args) == 2 else _kw(n, env, funcs).get('start', 0)
-                return list(enumerate(it_, start_))
+        if fname == 'enumerate' and isinstance(f, ast.Name) and 1 <= len(args) <= 2 and fname not in env:
+            start_ = args[1] if len(args) == 2 else _kw(n, env, funcs).get('start', 0)
+            return enumerate(_iter(args[0], n), start_)
         if isinstance(f, ast.Name) and fname == 'getattr' and len(args) in (2, 3) and isinstance(args[1], str):
             o_ = args[0]
             if isinstance(o_, Obj):
@@ -690,6 +1142,8 @@ def ev(n, env, funcs=None):
                     return o_.fields[nm_]
                 if args[1] in o_.methods:
                     return _BoundMethod(o_, args[1])           # getattr(obj, 'method'): a bound method taken as a value
+                if _demangled(o_, args[1]) is not None:
+                    return _BoundMethod(o_, _demangled(o_, args[1]))      # getattr(self, '_Track__helper'): the private method under its mangled name
                 consts_ = getattr(o_, 'consts', None) or {}
                 if args[1] in consts_:
                     return consts_[args[1]]
@@ -726,6 +1180,10 @@ def ev(n, env, funcs=None):
             return round(*args)
         if isinstance(f, ast.Name) and fname == 'divmod' and len(args) == 2:
             return divmod(*args)
+        if isinstance(f, ast.Name) and fname == 'globals' and not args and not n.keywords and fname not in env and funcs and '__name__' in funcs:
+            return _GlobalsView(funcs)
+        if isinstance(f, ast.Name) and fname == 'slice' and 1 <= len(args) <= 3 and fname not in env and not n.keywords:
+            return slice(*args)
         kw_ = _kw(n, env, funcs)
         if funcs and isinstance(f, ast.Name) and fname in funcs.get('__defaults__', ()) and '__resolve__' in funcs:
             target = funcs['__resolve__'](n, fname)
@@ -768,13 +1226,7 @@ def ev(n, env, funcs=None):
                 if not args:
                     return ctor()
                 a0 = args[0]
-                if isinstance(a0, Obj):
-                    if '__iter__' in a0.methods:
-                        return ctor(a0.call('__iter__'))
-                    if '__getitem__' in a0.methods and '__len__' in a0.methods:
-                        return ctor([a0.call('__getitem__', i_) for i_ in range(a0.call('__len__'))])
-                elif isinstance(a0, (list, tuple, set, frozenset, range, str, dict)) or hasattr(a0, '__iter__'):
-                    return ctor(a0)
+                return ctor(_iter(a0, n))
             if fname == 'vars' and len(args) == 1 and isinstance(args[0], Obj):
                 return args[0].fields               # the instance dictionary itself, in assignment order (as vars() gives __dict__)
             if fname == 'setattr' and len(args) == 3 and isinstance(args[1], str):
@@ -795,17 +1247,24 @@ def ev(n, env, funcs=None):
             if fname == 'hasattr' and len(args) == 2 and isinstance(args[1], str):
                 o_ = args[0]
                 if isinstance(o_, Obj):
-                    return args[1] in o_.fields or args[1] in o_.methods
+                    return args[1] in o_.fields or args[1] in o_.methods or _demangled(o_, args[1]) is not None or args[1] in (getattr(o_, 'consts', None) or {})
                 return hasattr(o_, args[1])
             if fname in ('ord', 'chr', 'bin', 'hex', 'oct', 'pow') and all(isinstance(a_, (int, float, str)) for a_ in args):
                 return {'ord': ord, 'chr': chr, 'bin': bin, 'hex': hex, 'oct': oct, 'pow': pow}[fname](*args)
             if fname == 'print':
                 return None
-            if fname == 'iter' and len(args) == 1 and (isinstance(args[0], (list, tuple, set, frozenset, range, str, dict)) or hasattr(args[0], '__iter__')):
-                return iter(args[0])
-            if fname == 'next' and 1 <= len(args) <= 2 and hasattr(args[0], '__next__'):
+            if fname == 'iter' and len(args) == 1:
+                return _iter(args[0], n)
+            if fname == 'iter' and len(args) == 2 and callable(args[0]):
+                return iter(args[0], args[1])
+            if fname == 'next' and 1 <= len(args) <= 2:
+                it_ = args[0]
+                if isinstance(it_, Obj) and '__next__' in it_.methods:
+                    it_ = _ObjNext(it_)
+                if not hasattr(it_, '__next__'):
+                    raise TypeError('%r object is not an iterator' % type(it_).__name__)
                 try:
-                    return next(args[0])
+                    return next(it_)
                 except StopIteration:
                     if len(args) == 2:
                         return args[1]
@@ -915,7 +1374,9 @@ def ev(n, env, funcs=None):
             return a & b if t is ast.BitAnd else (a | b if t is ast.BitOr else a ^ b)
         if t is ast.MatMult:
             return a @ b
-    if isinstance(n, (ast.ListComp, ast.GeneratorExp)):
+    if isinstance(n, ast.GeneratorExp):
+        return _lazy_genexp(n, env, funcs)
+    if isinstance(n, ast.ListComp):
         out = []
         _comprehend(n, env, funcs, lambda sc: out.append(ev(n.elt, sc, funcs)))
         return out
@@ -937,6 +1398,7 @@ def ev(n, env, funcs=None):
 
         def lam(*args, **kwargs):
             e2 = dict(captured)
+            e2.pop('__comp_outer__', None)
             for i_, d_ in enumerate(defaults):
                 e2[params[len(params) - len(defaults) + i_]] = d_
             e2.update(kw_defaults)
@@ -974,20 +1436,17 @@ def ev(n, env, funcs=None):
         return res
     if isinstance(n, ast.NamedExpr) and isinstance(n.target, ast.Name):
         v_ = ev(n.value, env, funcs)
-        env[n.target.id] = v_
+        e_ = env
+        e_[n.target.id] = v_
+        while '__comp_outer__' in e_:          # inside a comprehension the name is bound in the enclosing function
+            e_ = e_['__comp_outer__']
+            e_[n.target.id] = v_
         return v_
     if isinstance(n, ast.Slice):
         return slice(ev(n.lower, env, funcs) if n.lower is not None else None, ev(n.upper, env, funcs) if n.upper is not None else None,
                      ev(n.step, env, funcs) if n.step is not None else None)
-    if isinstance(n, ast.Yield):
-        env.setdefault('__yielded__', []).append(ev(n.value, env, funcs) if n.value is not None else None)
-        return None
-    if isinstance(n, ast.YieldFrom):
-        src_ = ev(n.value, env, funcs)
-        if not isinstance(src_, (list, tuple, range, set, frozenset, dict, str)) and not hasattr(src_, '__iter__'):
-            raise Unsupported('yield from %s' % _unparse(n.value))
-        env.setdefault('__yielded__', []).extend(list(src_))
-        return None
+    if isinstance(n, (ast.Yield, ast.YieldFrom)):
+        raise Unsupported('yield in an expression position: %s' % _unparse(n))
     if isinstance(n, ast.IfExp):
         return ev(n.body, env, funcs) if ev(n.test, env, funcs) else ev(n.orelse, env, funcs)
     if isinstance(n, ast.Dict):
@@ -1032,6 +1491,8 @@ def _iterable(it, node):
             return [it.call('__getitem__', i_) for i_ in range(it.call('__len__'))]
     if hasattr(it, '__iter__') and not isinstance(it, Obj):
         return list(it)
+    if isinstance(it, Obj):
+        return list(_iter(it, node))
     raise Unsupported('comprehension over %s' % _unparse(node))
 
 
@@ -1039,13 +1500,14 @@ def _comprehend(n, env, funcs, emit):
     """run the for / if clauses of a comprehension.  As in Python, the comprehension has ONE scope of its own (a function created
     inside it sees the last value its loop variables took); the first iterable is evaluated in the enclosing scope."""
     scope = dict(env)
+    scope['__comp_outer__'] = env
 
     def gen(k):
         if k == len(n.generators):
             emit(scope)
             return
         g = n.generators[k]
-        for item in _iterable(ev(g.iter, env if k == 0 else scope, funcs), g.iter):
+        for item in _iter(ev(g.iter, env if k == 0 else scope, funcs), g.iter):
             _bind(g.target, item, scope, funcs)
             if all(ev(c_, scope, funcs) for c_ in g.ifs):
                 gen(k + 1)
@@ -1124,9 +1586,7 @@ def run_block(stmts, env, funcs=None, limit=10000):
         elif isinstance(s, ast.Expr) and isinstance(s.value, (ast.Call, ast.Yield, ast.YieldFrom, ast.Await, ast.NamedExpr, ast.Name, ast.Attribute, ast.BinOp, ast.Compare, ast.Subscript)):
             ev(s.value, env, funcs)
         elif isinstance(s, ast.For):
-            it = ev(s.iter, env, funcs)
-            if isinstance(it, Obj) or (not hasattr(it, '__iter__')):
-                it = _iterable(it, s.iter)
+            it = _iter(ev(s.iter, env, funcs), s.iter)
             n_it = 0
             broke = False
             for item in it:
@@ -1241,8 +1701,14 @@ def run_block(stmts, env, funcs=None, limit=10000):
                     cm.__exit__(None, None, None)
             if r[0] != 'fall':
                 return r
-        elif isinstance(s, (ast.Import, ast.ImportFrom)):
-            pass
+        elif isinstance(s, ast.Import):
+            for al in s.names:
+                if al.name in _PLUMBING:
+                    env[al.asname or al.name] = pure_module(al.name)
+        elif isinstance(s, ast.ImportFrom):
+            if s.module in _PLUMBING and s.level == 0:
+                for al in s.names:
+                    env[al.asname or al.name] = getattr(pure_module(s.module), al.name)
         elif isinstance(s, ast.AnnAssign) and s.value is not None:
             _bind(s.target, ev(s.value, env, funcs), env, funcs)
         else:
@@ -1289,11 +1755,17 @@ def _closure(fdef, env, funcs):
         if missing:
             raise TypeError('%s() missing required arguments: %s' % (fdef.name, missing))
         body = fdef.body
+        e2.pop('__comp_outer__', None)
+
+        def write_back():
+            for nm in nonlocals:
+                if nm in e2:
+                    env[nm] = e2[nm]
+        if _is_generator(fdef):
+            return _start_generator(body, e2, funcs, after=write_back)
         kind, val = run_block(body, e2, funcs)
-        for nm in nonlocals:
-            if nm in e2:
-                env[nm] = e2[nm]
-        return _result(fdef, e2, kind, val)
+        write_back()
+        return val if kind == 'return' else None
     call.__name__ = fdef.name
     return call
 
@@ -1339,6 +1811,8 @@ def _bind(t, v, env, funcs=None):
     elif isinstance(t, (ast.Tuple, ast.List)):
         if isinstance(v, (str, range, set, frozenset, dict)) or (hasattr(v, '__iter__') and not isinstance(v, (list, tuple))):
             v = list(v)
+        elif isinstance(v, Obj) and ('__iter__' in v.methods or '__getitem__' in v.methods):
+            v = list(_iter(v))
         if not isinstance(v, (list, tuple)):
             raise TypeError('cannot unpack non-iterable %s object' % type(v).__name__)
         stars = [i_ for i_, e_ in enumerate(t.elts) if isinstance(e_, ast.Starred)]
@@ -1381,7 +1855,9 @@ def make_func(fn, funcs=None, self_obj=None):
         body = fn.body
         if body and isinstance(body[0], ast.Expr) and isinstance(body[0].value, ast.Constant) and isinstance(body[0].value.value, str):
             body = body[1:]
+        if _is_generator(fn):
+            return _start_generator(body, env, funcs)
         kind, val = run_block(body, env, funcs)
-        return _result(fn, env, kind, val)
+        return val if kind == 'return' else None
     call.__name__ = getattr(fn, 'name', 'function')
     return call
